@@ -61,8 +61,15 @@ Theorem nav_total_first : forall ids root cmd outs st,
 Proof. exact L_nav_total_first. Qed.
 Print Assumptions nav_total_first.
 
-(* the unwraps of pop_stack ARE reachable in the model (shallow history + a silent retry): see DESIGN, C08 search *)
-Theorem nav_panic_reachable :
-  snd (nav_command [S "r"%string] (S "r"%string) (S "ReadCurrent"%string) silent_then_done init_state) = Panic.
-Proof. exact L_nav_panic_reachable. Qed.
-Print Assumptions nav_panic_reachable.
+(* after the repairs of pop_stack: EVERY command in EVERY state completes or returns an error -- no unwrap of the
+   navigation stack can fail, whatever the history and whatever the rules answer *)
+Theorem nav_never_panics : forall ids root cmd outs st, snd (nav_command ids root cmd outs st) <> Panic.
+Proof. exact L_nav_never_panics. Qed.
+Print Assumptions nav_never_panics.
+
+(* the scenario in which the unwraps were reachable before the repairs now completes *)
+Theorem silent_first_try_completes :
+  snd (nav_command [S "r"%string] (S "r"%string) (S "ReadCurrent"%string) silent_then_done init_state) = Done /\
+  snd (nav_command [S "r"%string] (S "r"%string) (S "MoveLastLocation"%string) silent_then_done init_state) = Done.
+Proof. exact L_silent_first_try_completes. Qed.
+Print Assumptions silent_first_try_completes.
